@@ -310,3 +310,124 @@ func Clamp3(a, b, c int, p Pt) (int, int, Pt) {
 	}
 	return a + b, c, p
 }
+
+// ---- interface values as sum types (spec "iface_cases": {"fx.Rec": ["Soa", "Sig", "Txt"]}) and the clock
+// as a parameter
+
+type Hdr struct {
+	Name  string
+	Rtype uint16
+	Ttl   uint32
+}
+
+type Rec interface{ Header() *Hdr }
+
+type Soa struct {
+	Hdr    Hdr
+	Minttl uint32
+}
+type Sig struct {
+	Hdr        Hdr
+	Expiration uint32
+	Covered    uint16
+}
+type Txt struct {
+	Hdr Hdr
+	Txt []string
+}
+
+// Opq is a Rec the spec does not list: the constructor `other`
+type Opq struct {
+	Hdr Hdr
+	X   int
+}
+
+func (r *Soa) Header() *Hdr { return &r.Hdr }
+func (r *Sig) Header() *Hdr { return &r.Hdr }
+func (r *Txt) Header() *Hdr { return &r.Hdr }
+func (r *Opq) Header() *Hdr { return &r.Hdr }
+
+func ttlOf(r Rec) int64 { return int64(r.Header().Ttl) * 1000 }
+
+// sigLeft: what is left of a signature at instant now (ms), floor 5
+func sigLeft(s *Sig, now int64) int64 {
+	left := int64(s.Expiration)*1000 - now
+	if left <= 0 {
+		return 5
+	}
+	if t := int64(s.Header().Ttl) * 1000; t < left {
+		return t
+	}
+	return left
+}
+
+// MinTTL: comma-ok assertions inside a range loop, Header() on every dynamic type, nil elements skipped
+func MinTTL(rs []Rec, neg bool, now int64) int64 {
+	m := int64(1 << 40)
+	for _, r := range rs {
+		if r == nil {
+			continue
+		}
+		if r.Header().Rtype == 41 {
+			continue
+		}
+		if t := ttlOf(r); t < m {
+			m = t
+		}
+		if neg {
+			if soa, ok := r.(*Soa); ok {
+				if t := int64(soa.Minttl) * 1000; t < m {
+					m = t
+				}
+			}
+		}
+		if sig, ok := r.(*Sig); ok {
+			if t := sigLeft(sig, now); t < m {
+				m = t
+			}
+		}
+	}
+	return m
+}
+
+// Kinds: a type switch with a binding, a multi-type clause, case nil and default
+func Kinds(rs []Rec) (soas, sigs, txtLen, nils, others int) {
+	for _, r := range rs {
+		switch v := r.(type) {
+		case *Soa:
+			soas += int(v.Minttl)
+		case *Sig:
+			sigs += int(v.Covered)
+		case *Txt:
+			txtLen += len(v.Txt) + len(v.Hdr.Name)
+		case nil:
+			nils++
+		default:
+			others += int(v.Header().Ttl)
+		}
+	}
+	return
+}
+
+// Pick: builds interface values from concrete ones (implicit conversion), returns an interface
+func Pick(rs []Rec, want uint16) (Rec, []Rec) {
+	var out []Rec
+	var first Rec
+	for _, r := range rs {
+		switch r.(type) {
+		case *Soa, *Sig:
+			if r.Header().Rtype == want {
+				if first == nil {
+					first = r
+				}
+				out = append(out, r)
+			}
+		}
+	}
+	if first == nil {
+		s := &Soa{Hdr: Hdr{Name: "made", Rtype: want, Ttl: 1}, Minttl: 7}
+		first = s
+		out = append(out, s)
+	}
+	return first, out
+}
